@@ -1030,7 +1030,23 @@ def run(ctx):
     if not mp_ok:
         ctx.notes.append("multiprocessing unavailable in this sandbox run: nprocs=2 configurations skipped")
     cases = gen_cases(ctx, mp_ok)
-    obs_list = run_impl_sharded(ctx, cases, per=ctx.n(6, 5), workers=8)
+    hists = gen_histories(ctx)
+    from concurrent.futures import ThreadPoolExecutor
+    with ThreadPoolExecutor(max_workers=1) as hex_:
+        hfut = hex_.submit(ctx.impl, "c03", {"cases": [], "histories": hists, "limit": 60}, 900)
+        obs_list = run_impl_sharded(ctx, cases, per=ctx.n(6, 5), workers=8)
+        hobs = hfut.result()["histories"]
+    for h, ho in zip(hists, hobs):
+        def hreport(key, what, extra, h=h):
+            ctx.add_failure(key, "history %d (%s %dx%d, %d sources): %s" % (h["id"], h["target"]["proj"].get("proj"), h["target"]["w"], h["target"]["h"],
+                                                                              len(h["source"]["lons"]), what),
+                            {"oracle": "history", "history": h, "key": key})
+        ok = check_history(h, ho, hreport)
+        ctx.count("history_calls", len(h["calls"]))
+        for i, c in enumerate(h["calls"]):
+            ctx.case(("history", h["id"], i, call_name(c)), nontrivial=i > 0,
+                     sample={"history": "call %d of %d in one process" % (i, len(h["calls"])), "call": call_name(c),
+                             "geometry": {kk: vv for kk, vv in h["target"].items() if kk in ("proj", "w", "h", "extent")}})
     reports, facts_all, votes = analyse(ctx, cases, obs_list)
     for case, obs, f in zip(cases, obs_list, facts_all):
         ctx.count("class_" + case["tag"])
@@ -1069,9 +1085,99 @@ def run(ctx):
                         {"oracle": "organisation", "case": replay_payload(case, extra), "key": key})
 
 
+# ---------------------------------------------------------------------------------------------
+# histories of calls in one process
+def gen_histories(ctx):
+    """Geometry pairs driven through a sequence of calls in ONE driver process: radii growing and shrinking, different
+    neighbour counts and segment counts, reduce_data on and off, the same geometry objects re-used or equal-content fresh
+    objects.  Each call is compared with the same call made as an isolated first call (forked before any history call)."""
+    r = ctx.rng
+    pool = [area({"proj": "laea", "lat_0": 45, "lon_0": 15, "ellps": "WGS84"}, 12, 12, (-4e5, -4e5, 4e5, 4e5), "history"),
+            ll(0, 5, 12, 17, 10, 10, "history"),
+            stere(90, 37, (-5e5, -25e5, 5e5, -15e5), 9, 9, "history")]
+    if ctx.thorough:
+        pool += [random_target(r) for _ in range(9)]
+    hists = []
+    for hi, tgt in enumerate(pool):
+        lon, lat, tr, (x0, y0, x1, y1, dx, dy) = area_lonlats(tgt)
+        ps = pixel_scale(lon, lat)
+        n = 160
+        pts, tries = [], 0
+        mx, my = abs(x1 - x0) * 0.9, abs(y1 - y0) * 0.9
+        while len(pts) < n and tries < 40 * n:
+            tries += 1
+            a, b = tr.transform(r.uniform(min(x0, x1) - mx, max(x0, x1) + mx), r.uniform(min(y0, y1) - my, max(y0, y1) + my), direction="INVERSE")
+            if math.isfinite(a) and math.isfinite(b) and -90 <= b <= 90:
+                pts.append(((a + 180.0) % 360.0 - 180.0, b))
+        if len(pts) < 10:
+            continue
+        src = {"kind": "swath", "lons": [p[0] for p in pts], "lats": [p[1] for p in pts], "shape": [len(pts)]}
+        radii = [round(ps * f) for f in (0.35, 2.6, 1.2, 4.0, 0.35, 4.0)]
+        ks = [1, 3, 1, 2, 4, 1]
+        segs = [1, 1, 2, 1, 3, 2]
+        fresh = [False, False, True, False, True, False]
+        reduce_ = [True, True, True, False, True, True]
+        order = list(range(6))
+        if hi % 2 == 1:
+            order = [3, 1, 5, 0, 2, 4]          # a shrinking-first order
+        calls = [{"radius": float(max(radii[i], 1000)), "k": ks[i], "segments": segs[i], "fresh": fresh[i], "reduce": reduce_[i],
+                  "epsilon": 0.0 if i % 2 else 0, "fill": 0 if i == 2 else -1} for i in order]
+        hists.append({"id": hi, "tag": tgt["tag"], "source": src, "target": {k_: v for k_, v in tgt.items() if k_ != "tag"},
+                      "data": [r.randint(-400, 400) / 8.0 for _ in pts], "calls": calls})
+    return hists
+
+
+def call_name(c):
+    return "radius=%.0f,k=%d,reduce=%s,segments=%s%s" % (c["radius"], c["k"], c["reduce"], c["segments"], ",fresh objects" if c.get("fresh") else "")
+
+
+def check_history(h, obs, report):
+    """history independence: call i of the history == the same call made as a first call"""
+    n_ok = 0
+    for i, (c, got, iso) in enumerate(zip(h["calls"], obs["history"], obs["isolated"])):
+        past = "; ".join(call_name(x) for x in h["calls"][:i]) or "nothing"
+        where = "call %d (%s) after [%s]" % (i, call_name(c), past)
+        extra = {"history": h["id"], "call": i}
+        if "error" in iso:
+            if "error" not in got or got["error"] != iso["error"]:
+                report("C03.history.error", "%s: isolated call raises %s, in the history %s" % (where, iso.get("error"), got.get("error", "returns")), extra)
+            continue
+        if "error" in got:
+            report("C03.history.error", "%s raises %s(%s); as a first call it returns" % (where, got["error"], got.get("msg", "")), extra)
+            continue
+        a, b = info_arrays(got["info"]), info_arrays(iso["info"])
+        if not np.array_equal(a["vii"], b["vii"]):
+            d = np.flatnonzero(a["vii"].ravel() != b["vii"].ravel())
+            report("C03.history.reduction_mask", "%s: valid_input_index differs from that of the same call made first in a process (%d sources, e.g. index %d: %s vs %s)" % (
+                where, d.size, int(d[0]), bool(a["vii"].ravel()[d[0]]), bool(b["vii"].ravel()[d[0]])), extra)
+            continue
+        ca, _ = canon_info(a)
+        cb, _ = canon_info(b)
+        if ca != cb and not (ca and cb and only_ties(ca, cb)):
+            t, x, y = first_diff(ca, cb)
+            report("C03.history.neighbours", "%s: target pixel %d gets %s, the same call made first gets %s" % (where, t, list(x), list(y)), extra)
+            continue
+        ra, rb = dec_fl(got["nn"]), dec_fl(iso["nn"])
+        if not same_fl(ra, rb, tie_targets(ca, cb) if ca and cb else None, len(ca) if ca else None):
+            report("C03.history.result", "%s: resample_nearest differs from the same call made first%s" % (where, describe_diff(ra, rb)), extra)
+            continue
+        n_ok += 1
+    return n_ok
+
+
 def replay(ctx, data):
     """re-run the recorded case (plain call, reference and failing configuration); still failing = the same key is reported"""
     rp = data["case"]
+    if rp.get("oracle") == "history":
+        h = rp["history"]
+        ho = ctx.impl("c03", {"cases": [], "histories": [h], "limit": 60})["histories"][0]
+        found = []
+        check_history(h, ho, lambda key, what, extra: found.append((key, what)))
+        for key, what in found:
+            if key == data.get("key"):
+                print("  still failing: %s: %s" % (key, what[:400]))
+                return True
+        return False
     case = rp["case"]
     obs = ctx.impl("c03", {"cases": [case]})["cases"]
     reports, _, _ = analyse(ctx, [case], obs)
